@@ -45,7 +45,7 @@ def parse_classes(reply: str):
     return classes, sigs
 
 
-GENERIC = ["VLeaf", "VOne", "VPair", "VRev", "VMany", "VMix", "VOpt", "pkg.mod.VLong", "VSelf"]
+GENERIC = ["VLeaf", "VOne", "VPair", "VRev", "VMany", "VMix", "VOpt", "pkg.mod.VLong", "VSelf", "VFalsy", "VEmpty"]
 SELFREG = {}   # type name -> number of slots processed before the class registers the object itself (or None)
 PARAMS = ["Parameter", "ViewParameter", "CatParameter", "TransformedParameter"]
 DISTS = ["Distribution", "JointDistributionModel"]
@@ -103,13 +103,15 @@ class SpecGen:
     def literal(self, sp, kind, depth, parent):
         rng = self.rng
         if kind is None:
-            kinds = ["gen"] * 5 + (["param", "dist", "tree"] if self.real else [])
+            kinds = ["gen"] * 5 + (["param", "dist", "tree", "falsy"] if self.real else [])
             kind = rng.choice(kinds)
         if kind == "tree":
             return self.tree_literal(sp, depth, parent)
+        if kind == "falsy":
+            return self.falsy_literal(sp, depth, parent)
         if kind == "gen":
             deep = depth < self.max_depth and len(sp.lits) < self.size
-            ty = rng.choice(GENERIC if deep else ["VLeaf", "VLeaf", "pkg.mod.VLong", "VOpt"])
+            ty = rng.choice(GENERIC if deep else ["VLeaf", "VLeaf", "pkg.mod.VLong", "VOpt", "VFalsy", "VEmpty"])
         elif kind == "param1":
             ty = "Parameter"
         elif kind == "param":
@@ -172,6 +174,31 @@ class SpecGen:
         sp.bylen.setdefault(len(values), []).append(p["id"])
         return p
 
+    def falsy_literal(self, sp, depth, parent):
+        """objects of real classes that are FALSY once constructed: a Taxon without attributes (a UserDict), an empty Taxa
+        or Alignment (UserLists)"""
+        rng = self.rng
+        which = rng.choice(["Taxon", "Taxa", "Alignment"])
+        if which == "Taxon":
+            d = self._shuffled([("id", self.fresh(sp, "tx")), ("type", "Taxon")])
+            self._register(sp, d, "taxon0", depth, parent)
+        elif which == "Taxa":
+            d = self._shuffled([("id", self.fresh(sp, "taxa")), ("type", "Taxa"), ("taxa", [])])
+            self._register(sp, d, "taxa0", depth, parent)
+        else:
+            # an Alignment cannot be empty (its constructor reads sequences[0]); one sequence over one bare (falsy) Taxon
+            d, taxa = {}, {}
+            self.n += 1
+            t = self._shuffled([("id", f"s{self.n}A"), ("type", "Taxon")])
+            self._register(sp, t, "taxon0", depth + 2, taxa)
+            taxa.update(self._shuffled([("id", self.fresh(sp, "taxa")), ("type", "Taxa"), ("taxa", [t])]))
+            self._register(sp, taxa, "taxa0", depth + 1, d)
+            d.update(self._shuffled([("id", self.fresh(sp, "aln")), ("type", "Alignment"), ("taxa", taxa),
+                                     ("datatype", "nucleotide"), ("sequences", [{"taxon": t["id"], "sequence": "ACGT"}])]))
+            self._register(sp, d, "aln", depth, parent)
+        sp.features.add("falsy-" + which)
+        return d
+
     def tree_literal(self, sp, depth, parent, ty=None):
         """UnRootedTreeModel / TimeTreeModel / ReparameterizedTimeTreeModel / FlexibleTimeTreeModel over 3 taxa, with the
         Taxa (and its Taxon objects), the heights / branch-length parameters inline or by reference; generated in
@@ -184,6 +211,8 @@ class SpecGen:
         holder = {}
         # --- taxa
         tref = self.pick_ref(sp, "taxa")
+        if ty == "UnRootedTreeModel" and rng.random() < 0.5:
+            tref = self.pick_ref(sp, "taxa_bare") or tref
         if tref is not None and rng.random() < 0.35:
             holder["taxa"] = tref
             names = sp.taxa_names[tref]
@@ -194,12 +223,15 @@ class SpecGen:
             names = [f"t{self.n}{c}" for c in "ABC"]
             taxa = {}
             taxon_list = []
+            any_bare = False
             for nm in names:
-                t = self._shuffled([("id", nm), ("type", "Taxon"), ("attributes", {"date": 0.0})])
+                bare = ty == "UnRootedTreeModel" and rng.random() < 0.6   # what UnRootedTreeModel.json_factory emits
+                any_bare = any_bare or bare
+                t = self._shuffled([("id", nm), ("type", "Taxon")] + ([] if bare else [("attributes", {"date": 0.0})]))
                 self._register(sp, t, "taxon", depth + 2, taxa)
                 taxon_list.append(t)
             taxa.update(self._shuffled([("id", self.fresh(sp, "taxa")), ("type", "Taxa"), ("taxa", taxon_list)]))
-            self._register(sp, taxa, "taxa", depth + 1, d)
+            self._register(sp, taxa, "taxa_bare" if any_bare else "taxa", depth + 1, d)
             sp.taxa_names[taxa["id"]] = names
             holder["taxa"] = taxa
         a, b, c = names
@@ -290,6 +322,9 @@ class SpecGen:
                 holder["tensor"] = [rng.choice([0.5, 1.0, 2.0, 3.0])]
             elif r < 0.55:
                 holder["tensor"] = [rng.choice([0.5, 1.0, 2.0, 3.0]) for _ in range(rng.randint(1, 3))]
+                if rng.random() < 0.35:
+                    holder["dtype"] = rng.choice(["torch.float64", "torch.float32"])
+                    sp.features.add("dtype")
             elif r < 0.8:
                 k = rng.choice(["full_like", "zeros_like", "ones_like"])
                 holder[k] = self.value(sp, "param", depth + 1, parent, (holder, k))
